@@ -259,3 +259,55 @@ def write_replay(here, pid, v):
     with open(path, 'w', encoding='utf-8') as f:
         json.dump(body, f, indent=1, ensure_ascii=True, default=str)
     return path
+
+
+def run_atheris(rec, which, runs, seed, corpus=None, max_len=96, extra_args=(), dictionary=None):
+    """Runs pv.fuzz_target in a subprocess (atheris.Fuzz never returns). Records executions / non-trivial inputs; a saved
+    violation becomes a Violation with the decoded case. Absence of atheris is reported as a skipped part."""
+    import subprocess
+    here = os.path.dirname(os.path.dirname(os.path.abspath(__file__)))
+    d = scratch_dir('fuzz')
+    out, stats, art = os.path.join(d, 'violation.json'), os.path.join(d, 'stats.json'), os.path.join(d, 'artifacts') + os.sep
+    os.makedirs(art, exist_ok=True)
+    cdir = os.path.join(d, 'corpus')
+    os.makedirs(cdir, exist_ok=True)
+    for i, item in enumerate(corpus or []):
+        with open(os.path.join(cdir, f'seed{i}'), 'wb') as f:
+            f.write(item)
+    extra_args = list(extra_args)
+    if dictionary:
+        dpath = os.path.join(d, 'dict.txt')
+        with open(dpath, 'w') as f:
+            for tok in dictionary:
+                f.write('"' + ''.join('\\x%02x' % b for b in tok) + '"\n')
+        extra_args.append('-dict=' + dpath)
+    env = dict(os.environ, PYTHONPATH=here + os.pathsep + os.path.join(here, '.deps') + os.pathsep + os.environ.get('PYTHONPATH', ''))
+    probe = subprocess.run([sys.executable, '-c', 'import atheris'], env=env, capture_output=True)
+    if probe.returncode != 0:
+        rec.skip('atheris_not_installed')
+        return
+    cmd = [sys.executable, '-m', 'pv.fuzz_target', which, out, stats, cdir, f'-runs={runs}', f'-seed={seed % (2 ** 31 - 1) or 1}',
+           f'-max_len={max_len}', f'-artifact_prefix={art}', '-print_final_stats=1', '-timeout=60'] + list(extra_args)
+    p = subprocess.run(cmd, env=env, capture_output=True, text=True, cwd=here)
+    st = {}
+    if os.path.exists(stats):
+        st = json.load(open(stats))
+    execs = st.get('execs', 0)
+    for line in p.stderr.splitlines():
+        if 'number_of_executed_units' in line:
+            try:
+                execs = max(execs, int(line.split(':')[-1]))
+            except ValueError:
+                pass
+    rec.count(execs)
+    rec.classes[f'fuzz_{which}_execs'] += execs
+    rec.classes[f'fuzz_{which}_accepted'] += st.get('accepted', 0)
+    for i in range(st.get('distinct_nontrivial', 0)):
+        rec.nontrivial_key([which, seed, bool(corpus), i])
+    for smp in st.get('samples', [])[:2]:
+        rec.sample({'fuzz_input': smp})
+    if os.path.exists(out):
+        v = json.load(open(out))
+        raise Violation(v['kind'], v['message'], v['case'])
+    if p.returncode != 0:
+        raise HarnessError(f'fuzz target {which} ended with exit code {p.returncode}: {p.stderr[-1500:]}')
